@@ -146,6 +146,18 @@ Check C08_builtin : forall fail_at openable pl sh st o1 c1 o2 c2,
   lookup (tab sh) 1 = Some (o1, c1) -> lookup (tab sh) 2 = Some (o2, c2) ->
   teq_tab (res_shell (run_pipeline v0 fail_at openable pl sh)) (tab sh).
 
+(* PROPOSED notes/C04-fix-3.patch (_get_std_fds as a left-to-right fold): no redirection list is excluded any more *)
+Definition v_fix3 := mkv true true true true true true false.
+Theorem C08_builtin_fix3 : forall fail_at openable pl sh st o1 c1 o2 c2,
+  p_stages pl = [st] -> s_kind st = KBuiltin ->
+  lookup (tab sh) 1 = Some (o1, c1) -> lookup (tab sh) 2 = Some (o2, c2) ->
+  teq_tab (res_shell (run_pipeline v_fix3 fail_at openable pl sh)) (tab sh).
+Proof. intros. eapply (builtin_restored v_fix3); eauto. Qed.
+Example C08_lookahead_fix3 :
+  map (obj_at (tab (res_shell (run_pipeline v_fix3 nf yes (mkplan [mks FNone [mkr F1 false TAmp2; mkr F1 false (TFile 5)] KBuiltin [true]] false) sh0)))) [3; 4; 5]
+  = [None; None; None].
+Proof. vm_compute. reflexivity. Qed.
+
 (* descriptor exhaustion in the up-front loop: error, nothing forked, everything released
    (the capture pipes' failure points are covered by C08_shell: table restored) *)
 Theorem C08_emfile : forall v fail_at openable pl sh k,
@@ -224,11 +236,11 @@ Proof.
 Qed.
 
 (* ---------------- regression: what each repair bought (the code BEFORE the commit leaks) ---------------- *)
-Definition v_before_8dc92a8 := mkv false true true true true.
-Definition v_before_07e8792 := mkv true false true true true.
-Definition v_before_219c117 := mkv true true false true true.
-Definition v_before_3c1f8de := mkv true true true false true.
-Definition v_before_d4ac685 := mkv true true true true false.
+Definition v_before_8dc92a8 := mkv false true true true true false false.
+Definition v_before_07e8792 := mkv true false true true true false false.
+Definition v_before_219c117 := mkv true true false true true false false.
+Definition v_before_3c1f8de := mkv true true true false true false false.
+Definition v_before_d4ac685 := mkv true true true true false false false.
 Definition bunop_plan := mkplan [mks FNone [mkr F1 false (TFile 5)] KBuiltin [true]] false.
 Example C08_regression :
   (* prog 2>&1 : the dup()ed descriptor 3 stayed open in prog *)
@@ -265,6 +277,7 @@ Proof. vm_compute. repeat split; reflexivity. Qed.
 Print Assumptions C08_shell.
 Print Assumptions C08_children.
 Print Assumptions C08_builtin.
+Print Assumptions C08_builtin_fix3.
 Print Assumptions C08_partial.
 Print Assumptions C08_emfile.
 Print Assumptions C08_emfile_capture.
